@@ -101,6 +101,10 @@ impl RefModel for Layout {
             }
         }
         v.extend([Act::Org(0), Act::Org(1), Act::Org(3)]);
+        // gaps of a page and more (no device selected: every memory is large enough)
+        if self.devname.is_none() {
+            v.extend([Act::Org(200), Act::Org(201)]);
+        }
         if self.expr_actions {
             v.push(Act::OrgExpr(2));
             if s.seg != Seg::C {
@@ -139,7 +143,7 @@ impl RefModel for Layout {
             Act::Byte(k) => place(&mut n, *k as u32),
             Act::ByteExpr => place(&mut n, 2),
             Act::Org(d) | Act::OrgExpr(d) => {
-                n.pc[i] += *d as u32;
+                n.pc[i] += gap(*d);
                 if *d > 0 {
                     n.occupied[i] = false;
                 }
@@ -258,8 +262,8 @@ impl Layout {
                 }
                 Act::Byte(k) => item = Some((format!(".byte {}", k), vec![0u8; *k as usize])),
                 Act::ByteExpr => item = Some((".byte k_base + 2".to_string(), vec![0u8; 2])),
-                Act::Org(d) => src.push_str(&format!(".org {}\n", at + *d as u32)),
-                Act::OrgExpr(d) => src.push_str(&format!(".org k_base + {}\n", at + *d as u32)),
+                Act::Org(d) => src.push_str(&format!(".org {}\n", at + gap(*d))),
+                Act::OrgExpr(d) => src.push_str(&format!(".org k_base + {}\n", at + gap(*d))),
                 Act::Org0Start => src.push_str(".org 0\n"),
                 Act::OrgBack => {
                     src.push_str(&format!(".org {}\n", at - 1));
@@ -325,6 +329,15 @@ impl Layout {
         }
         put(&mut code, at as usize * 2, &tail);
         (src, Expected { fail, code, eeprom, ram_filling: data_end - self.ram_start, ram_filling_counter: s.pc[1] - self.ram_start, labels })
+    }
+}
+
+/// the distance an Org action moves: small ones literally, 200 / 201 = a page and a bit more than two
+fn gap(d: u8) -> u32 {
+    match d {
+        200 => 2048,
+        201 => 4099,
+        d => d as u32,
     }
 }
 
